@@ -134,8 +134,17 @@ fn run_block(lines: &[String], out: &mut Out) {
         },
         maxsteps,
     );
-    for h in handles {
-        let _ = h.join();
+    if status == "done" {
+        for h in handles {
+            let _ = h.join();
+        }
+    } else {
+        // let the stuck threads run freely to their end so the next scenario starts clean
+        s.inner.lock().unwrap().abort = true;
+        s.cv.notify_all();
+        for h in handles {
+            let _ = h.join();
+        }
     }
     let g = s.inner.lock().unwrap();
     for l in g.log.iter() {
